@@ -269,33 +269,74 @@ Proof. vm_compute. repeat split; auto. Qed.
 
 (* ---------- Stack ---------- *)
 
-(* For scripts whose PopOrWait condition changes only in front of a pass through the stack's mutex (what
+(* PopOrWait's caller-supplied wait condition is explicit steps of the model: loop head (mutex taken, length looked
+   at), the callback (entered, reads its condition, returns - all with the mutex held), Wait - so "all schedules" below includes every attempt to
+   run Push / Pop / SignalShutdown / size waits of other threads while a waiter is inside its callback or between the
+   callback and Wait.
+   For scripts whose PopOrWait condition changes only in front of a pass through the stack's mutex (what
    WorkerPool.Shutdown + Stack.SignalShutdown do since 5281186): no waiter is parked on a true condition (element
-   present / wait condition false / size reached) unless the wake-up is still in flight - all schedules. *)
+   present / wait condition false / size reached) unless the wake-up is still in flight - all schedules; and when
+   nothing can move any more every parked waiter's condition is false. *)
 Theorem C17_stack_waits : forall scripts sch,
   no_ext scripts ->
-  let s := kst (krun sch (kinit scripts)) in
-  (forall t, In (t, 0) (aq s) -> els s <> [] -> oa s <> []) /\
-  (forall t, In (t, 0) (aq s) -> flag s = false -> kfs s <> [] \/ oa s <> []) /\
-  (forall t th, In (t, S th) (aq s) -> th < length (els s) -> oa s <> []) /\
-  (forall t th, In (t, th) (xq s) -> length (els s) < th -> ox s <> []).
-Proof. exact stack_no_lost_wakeup. Qed.
+  (let s := kst (krun sch (kinit scripts)) in
+   (forall t, In (t, 0) (aq s) -> els s <> [] -> oa s <> []) /\
+   (forall t, In (t, 0) (aq s) -> flag s = false -> kfs s <> [] \/ oa s <> []) /\
+   (forall t th, In (t, S th) (aq s) -> th < length (els s) -> oa s <> []) /\
+   (forall t th, In (t, th) (xq s) -> length (els s) < th -> ox s <> [])) /\
+  (let s := krun sch (kinit scripts) in
+   kstuck s ->
+   (forall t, In (t, 0) (aq (kst s)) -> els (kst s) = [] /\ flag (kst s) = true) /\
+   (forall t th, In (t, S th) (aq (kst s)) -> length (els (kst s)) <= th) /\
+   (forall t th, In (t, th) (xq (kst s)) -> th <= length (els (kst s)))).
+Proof. intros scripts sch X. split; [exact (stack_no_lost_wakeup scripts sch X)|exact (stack_stuck_waiters_false scripts sch X)]. Qed.
 
+(* While a PopOrWait caller is inside its wait condition or between the callback and Wait (any reachable state, all
+   schedules) it holds the stack's mutex over an empty stack, it is the only such thread, no operation that needs the
+   mutex (everything but the flag write in front of SignalShutdown) can start, and no other thread can continue except
+   by delivering an owed Broadcast: the evaluation of the condition and the registration as a waiter are one critical
+   section. *)
+Theorem C17_stack_callback_exclusive : forall scripts sch,
+  no_ext scripts ->
+  let s := kst (krun sch (kinit scripts)) in
+  forall t, (emem t (kev s) = true \/ In t (kchk s)) ->
+    kmx s = Some t /\ els s = [] /\ map fst (kev s) ++ kchk s = [t] /\
+    (forall u o, needs_mutex o = true -> k_start u o s = None) /\
+    (forall u, u <> t -> kbusy u s = true -> mem u (oa s) = false -> mem u (ox s) = false -> k_cont u s = None).
+Proof. exact stack_callback_exclusive. Qed.
+
+(* the steps of PopOrWait: loop head (pop / enter the callback with the mutex held), the callback reads the condition,
+   the callback returns what it read (false: PopOrWait gives up; true: about to Wait, mutex still held); size waits
+   return only on a true condition *)
 Theorem C17_stack_wait_sound : forall t s s' r,
   (popwait_try t s = (s', r) ->
      match els s with
      | x :: rest => els s' = rest /\ pops s' = (t, Some x) :: pops s
-     | [] => (r = RDone -> flag s = false /\ pops s' = (t, None) :: pops s) /\ (r <> RDone -> flag s = true /\ pops s' = pops s)
+     | [] => r = RCont /\ pops s' = pops s /\ kev s' = kev s ++ [(t, None)] /\ (krel s = false -> kmx s' = Some t)
      end) /\
+  (popwait_read t s = (s', r) ->
+     r = RCont /\ els s' = els s /\ pops s' = pops s /\ kmx s' = kmx s /\ kev s' = eset t (flag s) (kev s)) /\
+  (forall b, popwait_eval t b s = (s', r) ->
+     els s' = els s /\
+     (r = RDone -> b = false /\ pops s' = (t, None) :: pops s) /\
+     (r <> RDone -> b = true /\ pops s' = pops s /\ kmx s' = Some t /\ kchk s' = kchk s ++ [t])) /\
   (forall th, below_k t th s = (s', RDone) -> length (els s') < th) /\
   (forall th, above_k t th s = (s', RDone) -> th < length (els s')).
 Proof. exact stack_wait_sound. Qed.
 
 Example C17_stack_waits_nonvacuous :
   no_ext [[KPopOrWait]; [KPush 1; KSetFlagLocked false]] /\
-  let s := kst (krun [0; 0; 1] (kinit [[KPopOrWait]; [KPush 1; KSetFlagLocked false]])) in
-  aq s = [(0, 0)] /\ els s = [1] /\ oa s = [1].
-Proof. split; [repeat constructor|vm_compute; repeat split; auto]. Qed.
+  (let s := kst (krun [0; 0; 0; 0; 1] (kinit [[KPopOrWait]; [KPush 1; KSetFlagLocked false]])) in
+   aq s = [(0, 0)] /\ els s = [1] /\ oa s = [1]) /\
+  (* a waiter inside its callback: the hypotheses of C17_stack_callback_exclusive hold in a reachable state *)
+  (let s := kst (krun [0; 1] (kinit [[KPopOrWait]; [KPush 1; KSetFlagLocked false]])) in
+   kev s = [(0, None)] /\ kmx s = Some 0 /\ els s = []) /\
+  (* a stuck state with a parked waiter *)
+  (let s := krun [0; 0; 0; 0] (kinit [[KPopOrWait]]) in aq (kst s) = [(0, 0)] /\ kstuck s).
+Proof.
+  split; [repeat constructor|split; [vm_compute; repeat split; auto|split; [vm_compute; repeat split; auto|]]].
+  vm_compute. split; auto. intros t. destruct t as [|[|t]]; reflexivity.
+Qed.
 
 (* D16b: with an external condition that is written and broadcast without the stack's mutex the statement is false:
    the waiter parks on a false condition with nothing in flight and nothing can move. *)
@@ -304,6 +345,18 @@ Theorem C17_refuted_popOrWait :
   In (0, 0) (aq (kst s)) /\ flag (kst s) = false /\ oa (kst s) = [] /\ kfs (kst s) = [] /\ ak (kst s) = [] /\
   (forall t, kstep s t = None).
 Proof. exact refuted_popOrWait_external. Qed.
+
+(* The variant of PopOrWait that releases the stack's mutex around the evaluation of the wait condition and parks
+   without looking at the length again (krel = true, not the code): [PopOrWait] || [Push 7], schedule 0 1 1 0 0 0 - the
+   Push lands while thread 0 is inside its callback and broadcasts to nobody; thread 0 parks on a non-empty stack,
+   nothing is in flight, nobody can move: the statement is false for that variant.  (The code on the same schedule:
+   ProofsWaits.held_popOrWait_same_window.) *)
+Theorem C17_refuted_popOrWait_released_mutex :
+  let s := krun released_schedule (kinit_rel released_scripts) in
+  In (0, 0) (aq (kst s)) /\ els (kst s) = [7] /\ flag (kst s) = true /\
+  oa (kst s) = [] /\ kfs (kst s) = [] /\ ak (kst s) = [] /\ pops (kst s) = [] /\
+  (forall t, kstep s t = None).
+Proof. exact refuted_popOrWait_released. Qed.
 
 Print Assumptions C17_exclusion.
 Print Assumptions C17_pw.
@@ -321,4 +374,6 @@ Print Assumptions C17_dag_terminates.
 Print Assumptions C17_counter_waits.
 Print Assumptions C17_stack_waits.
 Print Assumptions C17_stack_wait_sound.
+Print Assumptions C17_stack_callback_exclusive.
 Print Assumptions C17_refuted_popOrWait.
+Print Assumptions C17_refuted_popOrWait_released_mutex.
